@@ -82,6 +82,16 @@ func TestC12Create(t *testing.T) {
 		compounding := rapid.Bool().Draw(rt, "compounding")
 		withdrawal := "0x" + strings.Repeat("ab", 19) + fmt.Sprintf("%02x", rapid.IntRange(0, 255).Draw(rt, "addrByte"))
 		fee := "0x" + strings.Repeat("cd", 20)
+		// with several validators, half of the cases give every validator its own withdrawal and fee recipient address
+		wdOf, feeOf := make([]string, vals), make([]string, vals)
+		perValidator := vals > 1 && rapid.Bool().Draw(rt, "addressesPerValidator")
+		for j := range wdOf {
+			wdOf[j], feeOf[j] = withdrawal, fee
+			if perValidator {
+				wdOf[j] = "0x" + strings.Repeat("ab", 18) + fmt.Sprintf("%02x", j+1) + withdrawal[len(withdrawal)-2:]
+				feeOf[j] = "0x" + strings.Repeat("cd", 19) + fmt.Sprintf("%02x", j+1)
+			}
+		}
 		// Every third case goes through --definition-file: the definition (any format version, unsigned
 		// operators, deposit amounts in any order and with repeats where the version carries them) is
 		// written by the harness with the exported constructor, the CLI turns it into a cluster.
@@ -116,6 +126,12 @@ func TestC12Create(t *testing.T) {
 			if vn >= 10 {
 				gas = uint(rapid.SampledFrom([]int{30000000, 36000000, 60000000}).Draw(rt, "gasLimit"))
 			}
+			if vn < 5 && perValidator { // one address pair for the whole cluster in the formats before v1.5
+				perValidator = false
+				for j := range wdOf {
+					wdOf[j], feeOf[j] = withdrawal, fee
+				}
+			}
 			fees, wds := make([]string, vals), make([]string, vals)
 			csFee, err1 := eth2util.ChecksumAddress(fee)
 			csWd, err2 := eth2util.ChecksumAddress(withdrawal)
@@ -123,7 +139,12 @@ func TestC12Create(t *testing.T) {
 				rt.Fatalf("HARNESS-ERROR: checksum address: %v %v", err1, err2)
 			}
 			for j := range fees {
-				fees[j], wds[j] = csFee, csWd
+				var e1, e2 error
+				fees[j], e1 = eth2util.ChecksumAddress(feeOf[j])
+				wds[j], e2 = eth2util.ChecksumAddress(wdOf[j])
+				if e1 != nil || e2 != nil {
+					rt.Fatalf("HARNESS-ERROR: checksum address: %v %v", e1, e2)
+				}
 			}
 			opts := []func(*cluster.Definition){cluster.WithVersion(defVersion)}
 			if vn < 5 {
@@ -145,6 +166,9 @@ func TestC12Create(t *testing.T) {
 		} else {
 			args = []string{"create", "cluster", "--insecure-keys", fmt.Sprintf("--nodes=%d", n), fmt.Sprintf("--num-validators=%d", vals), "--network=" + network,
 				"--cluster-dir=" + dir, "--fee-recipient-addresses=" + fee, "--withdrawal-addresses=" + withdrawal, "--name=verif"}
+			if perValidator {
+				args[len(args)-3], args[len(args)-2] = "--fee-recipient-addresses="+strings.Join(feeOf, ","), "--withdrawal-addresses="+strings.Join(wdOf, ",")
+			}
 			if thr != 0 {
 				args = append(args, fmt.Sprintf("--threshold=%d", thr))
 			}
@@ -266,7 +290,9 @@ func TestC12Create(t *testing.T) {
 		if compounding {
 			credPrefix = 2
 		}
-		wantCreds := append(append([]byte{credPrefix}, make([]byte, 11)...), mustHex(withdrawal)...)
+		credsOf := func(j int) []byte {
+			return append(append([]byte{credPrefix}, make([]byte, 11)...), mustHex(wdOf[j])...)
+		}
 		dd, err := deposit.ReadDepositDataFiles(filepath.Join(dir, "node0"))
 		if err != nil {
 			rt.Fatalf("deposit data files: %v", err)
@@ -275,16 +301,18 @@ func TestC12Create(t *testing.T) {
 		for _, set := range dd {
 			for _, d := range set {
 				var val *cluster.DistValidator
+				valIdx := -1
 				for j := range lock.Validators {
 					if bytes.Equal(lock.Validators[j].PubKey, d.PublicKey[:]) {
 						val = &lock.Validators[j]
+						valIdx = j
 					}
 				}
 				if val == nil {
 					rt.Fatalf("DEPOSIT: deposit datum for a key that is not a validator of the lock")
 				}
-				if !bytes.Equal(d.WithdrawalCredentials, wantCreds) {
-					rt.Fatalf("DEPOSIT: withdrawal credentials %x, want %x", d.WithdrawalCredentials, wantCreds)
+				if wantCreds := credsOf(valIdx); !bytes.Equal(d.WithdrawalCredentials, wantCreds) {
+					rt.Fatalf("DEPOSIT: validator %d: withdrawal credentials %x, want %x (its own withdrawal address)", valIdx, d.WithdrawalCredentials, wantCreds)
 				}
 				seenAmounts[d.Amount]++
 				sr := signingRoot(&eth2p0.DepositMessage{PublicKey: d.PublicKey, WithdrawalCredentials: d.WithdrawalCredentials, Amount: d.Amount}, "DOMAIN_DEPOSIT", fv)
@@ -308,8 +336,8 @@ func TestC12Create(t *testing.T) {
 				if !bytes.Equal(pd.PubKey, v.PubKey) {
 					rt.Fatalf("LOCK DEPOSIT: validator %d partial deposit %d is for key %x, the validator's key is %x", j, k, pd.PubKey[:6], v.PubKey[:6])
 				}
-				if !bytes.Equal(pd.WithdrawalCredentials, wantCreds) {
-					rt.Fatalf("LOCK DEPOSIT: validator %d partial deposit %d has withdrawal credentials %x, want %x", j, k, pd.WithdrawalCredentials, wantCreds)
+				if wantCreds := credsOf(j); !bytes.Equal(pd.WithdrawalCredentials, wantCreds) {
+					rt.Fatalf("LOCK DEPOSIT: validator %d partial deposit %d has withdrawal credentials %x, want %x (its own withdrawal address)", j, k, pd.WithdrawalCredentials, wantCreds)
 				}
 				var pk eth2p0.BLSPubKey
 				copy(pk[:], pd.PubKey)
@@ -344,8 +372,8 @@ func TestC12Create(t *testing.T) {
 			if !bytes.Equal(reg.Message.PubKey, v.PubKey) {
 				rt.Fatalf("REGISTRATION: registration %d is for another key", j)
 			}
-			if !bytes.Equal(fr[:], mustHex(fee)) {
-				rt.Fatalf("REGISTRATION: fee recipient %x, want %s", fr, fee)
+			if !bytes.Equal(fr[:], mustHex(feeOf[j])) {
+				rt.Fatalf("REGISTRATION: validator %d: fee recipient %x, want %s (its own fee recipient address)", j, fr, feeOf[j])
 			}
 			sr := signingRoot(&eth2v1.ValidatorRegistration{FeeRecipient: fr, GasLimit: uint64(reg.Message.GasLimit), Timestamp: reg.Message.Timestamp, Pubkey: pk}, "DOMAIN_APPLICATION_BUILDER", fv)
 			var sig tbls.Signature
